@@ -11,18 +11,7 @@ PATH = T.rec("Path", {"s": T.str()})
 H = "zorg.service.handlers:"
 
 
-@opaque("str", always=True)
-def sha256_of(content):
-    """A-SHA: the digest is a function of the content (collisions are an explicit assumption of the C06 plan)"""
-    import hashlib
-
-    return hashlib.sha256(content.encode()).hexdigest()
-
-
-contract(H + "_hash_file", props=["C06"], assumed=True, args={"filepath": PATH, "chunk_size": T.int()},
-         requires={"the-file-exists": "fs_exists(filepath)"},
-         result_is="sha256_of(fs_read(filepath))",
-         note="ASSUMED: chunked binary read + hashlib; the digest is a function of the file's content")
+from contracts.hashfile import hash_file_of, sha256_of  # noqa: E402,F401
 
 
 def last_with_key(zdir, paths, k):
@@ -58,7 +47,6 @@ contract(
 # as long as they agreed with each other (the invariant every create / reindex establishes, clause `hash-map-describes-the-index`).
 # ---------------------------------------------------------------------------------------------------------------
 from engine.spec import fs_exists, fs_only_changed, ghost, json_map, opaque as _opaque  # noqa: E402
-from contracts.c05 import hash_file_of  # noqa: E402,F401
 from zorg.domain.messages import commands as _commands  # noqa: E402
 from zorg.domain.models import Page as _Page  # noqa: E402
 
@@ -80,6 +68,14 @@ def _rel(interp, zdir, p):
 
 
 def _reindex_prelude(interp, loc):
+    _index_prelude(interp, loc, create=False)
+
+
+def _create_prelude(interp, loc):
+    _index_prelude(interp, loc, create=True)
+
+
+def _index_prelude(interp, loc, create):
     """cmd: plain reindex of zdir; `pages`: 0..NPG pages on disk with distinct names; the hash file holds a map with 0..NPG
     entries; the error whitelist is empty; `idx`: the abstract index (any map; tied to the hash map by the requires clauses)"""
     import z3
@@ -114,9 +110,9 @@ def _reindex_prelude(interp, loc):
         for kk in old_map:
             ctx.assume(k.t != sym.zstr(kk.v))
         old_map[_SymKey(k)] = sym.TStr().fresh(ctx, f"stored.digest{j}")
-    from contracts import c05
+    from contracts import hashfile
 
-    hpath = interp.call(interp.wrap_global(c05.hash_file_of), [zdir], {})
+    hpath = interp.call(interp.wrap_global(hashfile.hash_file_of), [zdir], {})
     hs = sym.zstr(hpath.fields["s"])
     h0 = ctx.fresh("hashfile.text", z3.StringSort())
     ctx.ghost.setdefault("json_known", {})[models._key(h0)] = old_map
@@ -133,6 +129,13 @@ def _reindex_prelude(interp, loc):
     idx = sym.TMap(sym.TStr(), sym.TStr()).fresh(ctx, "idx")
     ctx.ghost["user"] = {"pages": pages, "idx": idx, "whitelist": wl, "zdir": zdir, "stored": old_map}
     repo = sym.Rec("SQLRepo", {}, cls=SQLRepo)
+    if create:
+        # db create: a fresh (empty) index; the whitelist flag is symbolic
+        ctx.assume(idx.has == z3.K(z3.StringSort(), z3.BoolVal(False)))
+        loc["cmd"] = sym.Rec("CreateDBCommand", {"zettel_dir": zdir, "update_error_file_whitelist": sym.TBool().fresh(ctx, "update_whitelist")}, cls=_commands.CreateDBCommand)
+        loc["session"] = sym.Rec("SQLSession", {"repo": repo, "zdir": zdir}, cls=SQLSession)
+        loc["_ghost_zdir"] = zdir
+        return
     # plain reindex, or `db reindex PAGE` for one of the pages on disk
     paths = []
     for p in pages:
@@ -249,6 +252,29 @@ contract(
         "explicit paths: other-pages-keep-their-stored-digest": "implies(len(cmd.paths) > 0, "
                                                                 "forall_str(lambda k: (k in json_map(fs_read(hash_file_of(_ghost_zdir)))) == (k in ghost('stored') or considered_name(cmd, _ghost_zdir, k))) and "
                                                                 "all(considered_name(cmd, _ghost_zdir, k) or json_map(fs_read(hash_file_of(_ghost_zdir)))[k] == ghost('stored')[k] for k in ghost('stored').keys()))",
+        "no-page-is-written": "fs_only_changed(hash_file_of(_ghost_zdir), ghost('whitelist'))",
+    },
+)
+
+
+def _stub_notes(interp, args, kwargs):
+    """Page.notes of a walked page (only its length is logged here)"""
+    return []
+
+
+contract(
+    H + "create_database", props=["C06", "C05"], args={}, prelude=_create_prelude, list_bound=NPG, bounded_note=RE_BOUNDED.replace("plain reindex or one explicit page", "db create into a fresh index"),
+    inline=[H + "_get_file_hash_map"],
+    stubs={H + "_get_zo_paths_to_index": _stub_all_pages, H + "_get_error_file_whitelist": _stub_whitelist,
+           "zorg.service.compiler._api:walk_zorg_page": _stub_walk, "zorg.storage.sql._repo:SQLRepo.add_file": _stub_add,
+           "zorg.storage.sql._session:SQLSession.commit": _stub_noop, "zorg.domain.models._page:Page.notes": _stub_notes},
+    raises={"RuntimeError": "not cmd.update_error_file_whitelist and any(has_syntax_errors(fs_read(p)) for p in ghost('pages'))"},
+    ensures={
+        "the-index-holds-exactly-the-pages-on-disk": "forall_str(lambda k: (k in ghost('idx')) == on_disk(_ghost_zdir, k))",
+        "every-page-is-indexed-with-its-current-content": "all(ghost('idx')[relative(_ghost_zdir, p)] == fs_read(p) for p in ghost('pages'))",
+        "the-stored-hash-map-describes-the-index (establishes the reindex invariant)":
+            "forall_str(lambda k: (k in json_map(fs_read(hash_file_of(_ghost_zdir)))) == on_disk(_ghost_zdir, k)) and "
+            "all(json_map(fs_read(hash_file_of(_ghost_zdir)))[relative(_ghost_zdir, p)] == sha256_of(fs_read(p)) for p in ghost('pages'))",
         "no-page-is-written": "fs_only_changed(hash_file_of(_ghost_zdir), ghost('whitelist'))",
     },
 )
